@@ -1,4 +1,5 @@
 import Cppcms.C07.Model
+import Cppcms.C09.Types
 /-!
 # C09 — specification side: recorded concurrent histories and linearizability
 
@@ -115,5 +116,38 @@ def checkLin (s₀ : State) (recs : List Rec) (order : List Lin) : Option String
   else if seqOuts s₀ (order.map (·.op)) != order.map (·.out) then some "not-a-sequential-execution"
   else if !pairwiseB (realTimeOkB recs) order then some "real-time-order-violated"
   else none
+
+/-! ### the lock discipline (rule that the generated access table must satisfy) -/
+
+def holds (h : Held) (l : LockId) (m : Mode) : Bool := h.contains (l, m)
+
+/-- the exclusive lock on `access_lock` is held -/
+def exclusiveOk (h : Held) : Bool := holds h .access .exclusive
+/-- at least the shared lock on `access_lock` is held -/
+def sharedOk (h : Held) : Bool := holds h .access .shared || holds h .access .exclusive
+/-- exclusive lock, or shared lock together with `lru_mutex` -/
+def lruOk (h : Held) : Bool := exclusiveOk h || (holds h .access .shared && holds h .lru .exclusive)
+
+/-- the LRU list and the containers' iterators into it: the only state written by readers -/
+def Field.isLru : Field → Bool
+  | .lru | .cLru => true
+  | _ => false
+
+/-- The rule.  Writes need the exclusive lock, reads at least the shared lock — except `lru` and
+`container.lru`, which may be written (and then must also be *read*) under the shared lock
+together with `lru_mutex`. -/
+def Access.ok (a : Access) : Bool :=
+  if a.field.isLru then lruOk a.held
+  else if a.write then exclusiveOk a.held
+  else sharedOk a.held
+
+/-- two guards that cannot be alive on two different threads at the same time -/
+def guardsConflict (a b : LockId × Mode) : Bool :=
+  a.1 == b.1 && (a.2 == .exclusive || b.2 == .exclusive)
+
+/-- two segments holding these guard sets can never overlap in time -/
+def mutuallyExcluded (h₁ h₂ : Held) : Bool := h₁.any fun a => h₂.any fun b => guardsConflict a b
+
+def allMethods : List Method := [.fetch, .store, .rise, .remove, .clear, .stats, .addRef, .delRef]
 
 end Cppcms.C09
